@@ -343,6 +343,11 @@ def op_gen_coords(op, root, opdir):
     if op.get("coord_text"):
         _write_files(opdir, [("input.gro", op["coord_text"])])
         kw["coordpath"] = Path(os.path.join(opdir, "input.gro"))
+        if op.get("build_res"):
+            kw["build_res"] = list(op["build_res"])
+    if op.get("build_text"):
+        _write_files(opdir, [("opts.bld", op["build_text"])])
+        kw["build"] = [Path(os.path.join(opdir, "opts.bld"))]
     random.seed(op.get("seed", 1))
     np.random.seed(op.get("seed", 1))
     gen_coords(**kw)
